@@ -113,6 +113,21 @@ def genOps2 : List (String × R String) := [
         | some d => (Except.ok d : Except PyErr Bytes) | none => .error .valueError
       let sfs := fun (b : Bytes) => (Model.signingKeyFromString b).map (fun (n : Nat) => (n : Int))
       pure (ansG (fun (d : Int) => hex (Py.beBytes 32 d.toNat)) (Gen.from_wif Crypto.sha256 dec sfs pfx w))),
+  ("g:pk_parse", do
+      let w ← str
+      let sq := fun (a _p : Int) => (Model.sqrtAll a.toNat).map Int.ofNat
+      pure (ansG (fun (P : Nat × Nat) => s!"{hex (Py.beBytes 32 P.1)} {hex (Py.beBytes 32 P.2)}")
+        (Gen.pubkey_from_hex sq Model.verifyingKeyFromString w.toList))),
+  ("g:pk_render", do
+      let ks ← bytes
+      pure (ansG id (do
+        let c ← Gen.pubkey_to_hex ks true
+        let u ← Gen.pubkey_to_hex ks false
+        let xo ← Gen.pubkey_to_x_only_hex ks
+        let ev ← Gen.pubkey_is_y_even ks
+        let hc ← Gen.pubkey_to_hash160 Crypto.sha256 ks true
+        let hu ← Gen.pubkey_to_hash160 Crypto.sha256 ks false
+        pure s!"{hex c} {hex u} {hex xo} {if ev then 1 else 0} {hex hc} {hex hu}"))),
   ("g:target", do
       let bits ← nat
       pure (ansG (fun (b : Bytes) => if b.length ≥ 32 then toString (Py.ofBE b) else "bad-width") (Gen.blockheader_target (bits : Int)))),
